@@ -161,7 +161,10 @@ theorem C11_item_ready_iff_obtainable (kind : Kind) (cs : List Call) (sid : Nat)
 
 /-- **What the stream's answers mean**, after any history: when `poll_next` answers `Pending`, items are left and every one of them is
 queued behind somebody else's ownership of its key — nothing the stream could have obtained was left unpolled; when it answers
-`None` (end of stream), no unresolved item is left. ("It ends after the last such key.") -/
+`None` (end of stream), no unresolved item is left. ("It ends after the last such key.")
+Not modelled: inside a tokio task whose cooperative budget (128 operations) is used up, tokio's `Acquire::poll` answers `Pending`
+with a self-wake even for a free key, so there a `Pending` may also mean "budget exhausted, poll again" (no wake-up is lost); the
+harness polls outside a tokio runtime, where the budget is unconstrained. -/
 theorem C11_pending_means_blocked (kind : Kind) (cs : List Call) (sid : Nat) :
     let a := cs.foldl (fun a c => (a.exec c).1) (Api.init kind)
     let r := a.exec (.spoll sid)
@@ -231,5 +234,24 @@ theorem C11_spoll_never_out_of_fuel (kind : Kind) (cs : List Call) (sid : Nat) (
   have := spollLoop_not_bad sid (st.ready.length + 1) a hi hk st hl (Nat.lt_succ_self _)
   show (a.spollLoop sid (match a.streams.lookup sid with | some st => st.ready.length + 1 | none => 1)).2 ≠ .bad
   rw [hl]; exact this
+
+/-- **One item per key**: in every reachable API state the unresolved items of one stream are for pairwise different keys. With
+`C11_items_only_shrink` (stated over acquisition ids) and the constancy of an acquisition's key (`hs_step_other`) this turns "once
+per item" into "once per key" for the life of one stream id. -/
+theorem C11_one_item_per_key (kind : Kind) (cs : List Call) :
+    KOk (cs.foldl (fun a c => (a.exec c).1) (Api.init kind)) :=
+  (reach_execs cs _ (ainv_init kind) (kok_init kind)).2
+
+/-- **What the call creates**, at the API level and for every reachable state: when `lock_all_entries` answers with its items, they
+are one per key of the map at that moment, in iteration order — exactly the keys that have a value or are locked (`C04_keys_exact_api`),
+none that appears later — and they are the stream's unresolved items (in the reverse order, the one a dropped `FuturesUnordered`
+releases them in). The call answers `bad` instead (no stream) when the map has more than 48 entries or the id block `h0 … h0+47` is
+in use: the whole-stream theorems say nothing about larger maps. -/
+theorem C11_snapshot_api (kind : Kind) (cs : List Call) (sid h0 : Nat) (pairs : List (Nat × Nat)) :
+    let a := cs.foldl (fun a c => (a.exec c).1) (Api.init kind)
+    (a.exec (.lockAll sid h0)).2.res = .handles pairs →
+    pairs.map Prod.snd = a.s.order ∧ itemsAt (a.exec (.lockAll sid h0)).1 sid = some (pairs.map Prod.fst).reverse := by
+  intro a h
+  exact lockAll_handles a sid h0 pairs (C11_bookkeeping_exact kind cs).inv h
 
 end Lockable
